@@ -87,6 +87,15 @@ def run_case(case):
                 if e is not None:
                     continue
                 res.label("fsarray_arg")
+            elif op.get("as") == "fsarray_setitem":
+                from curtsies.formatstringarray import FSArray
+                from curtsies.formatstring import fmtstr as _fmtstr
+
+                # an FSArray declared narrow, rows put in by a[i] = row (the one assignment without a length check)
+                array = FSArray(len(vals), op.get("declared_width", 1))
+                for i_, (v_, _) in enumerate(vals):
+                    array[i_] = v_ if not isinstance(v_, str) else _fmtstr(v_)
+                res.label("fsarray_rows_set_by_index")
             elif case.get("reuse"):
                 persistent[:] = [v for v, _ in vals]  # same list object as in the previous render, edited in place
                 array = persistent
@@ -220,7 +229,7 @@ def history(draw):
         if same_cursor and last_cur is not None and last_cur[0] < h and last_cur[1] < w:
             cur = last_cur
         last_cur = cur
-        case["steps"].append({"op": "render", "rows": rows, "as": draw(st.sampled_from(["list", "list", "fsarray"])), "cursor": cur})
+        case["steps"].append({"op": "render", "rows": rows, "as": draw(st.sampled_from(["list", "list", "fsarray", "fsarray_setitem"])), "declared_width": draw(st.integers(0, 9)), "cursor": cur})
         prev = rows
     return case
 
